@@ -1,5 +1,16 @@
 # Sidecar contracts for python/gherkin/gherkin_line.py  (parsed with `ast` by pyvc; never edits /repo)
 from pyvc.dsl import *  # noqa
+from itertools import chain
+from gherkin.gherkin_line import GherkinLine
+
+# characters the line functions distinguish: pipe, backslash, 'n', blank kinds (space, tab, NBSP, LF, CR),
+# '@', '#', an ordinary and a non-BMP character
+LINE_ALPHA = "|\\n \t\u00a0\n\r@#x\U0001F600"
+
+
+def _lines(bound, seeds, alpha=LINE_ALPHA, prefix=""):
+    return chain((GherkinLine(s, 1) for s in seeds if isinstance(s, str)),
+                 (GherkinLine(prefix + t, 7) for t in strings(alpha, bound)))
 
 klass("GherkinLine",
       fields=dict(_line_text=Str, _line_number=Int, _trimmed_line_text=Str, indent=Int),
@@ -9,7 +20,8 @@ klass("GherkinLine",
       ])
 
 contract("gherkin.gherkin_line.GherkinLine.__init__",
-         args=dict(self="GherkinLineRaw", line_text=Str, line_number=Int),
+         gen=lambda bound, seeds: chain(((t, 3) for t in seeds if isinstance(t, str)), ((t, 3) for t in strings(" \t\u00a0\nx", bound + 1))),
+         args=dict(self=Raw("GherkinLine"), line_text=Str, line_number=Int),
          returns=NoneT,
          modifies=["self.*"],
          ensures=[
@@ -19,9 +31,9 @@ contract("gherkin.gherkin_line.GherkinLine.__init__",
              clause("indent", lambda self, line_text: self.indent == lead_ws(line_text), serves=["C04", "C16"]),
          ])
 
-klass("GherkinLineRaw", fields=dict(), record=False)
 
 contract("gherkin.gherkin_line.GherkinLine.get_rest_trimmed",
+         gen=lambda bound, seeds: ((l, k) for l in _lines(bound, seeds, " \tx\n") for k in range(0, 4)),
          args=dict(self="GherkinLine", length=Int),
          requires=[lambda length: length >= 0],
          returns=Str,
@@ -29,6 +41,7 @@ contract("gherkin.gherkin_line.GherkinLine.get_rest_trimmed",
                          serves=["C03", "C16", "C05"])])
 
 contract("gherkin.gherkin_line.GherkinLine.get_line_text",
+         gen=lambda bound, seeds: ((l, k) for l in _lines(bound, seeds, " \tx\n") for k in range(-1, 5)),
          args=dict(self="GherkinLine", indent_to_remove=Int),
          returns=Str,
          ensures=[clause("text", lambda self, indent_to_remove, result:
@@ -36,21 +49,25 @@ contract("gherkin.gherkin_line.GherkinLine.get_line_text",
                                     else self._line_text[indent_to_remove:]), serves=["C13", "C03"])])
 
 contract("gherkin.gherkin_line.GherkinLine.is_empty",
+         gen=lambda bound, seeds: ((l,) for l in _lines(bound + 1, seeds, " \tx\n\u00a0")),
          args=dict(self="GherkinLine"), returns=Bool,
          ensures=[clause("empty", lambda self, result: result == (len(self._trimmed_line_text) == 0), serves=["C03", "C16"])])
 
 contract("gherkin.gherkin_line.GherkinLine.startswith",
+         gen=lambda bound, seeds: ((l, p) for l in _lines(bound, seeds, " x|@") for p in ("", "x", "|", "@", "xx")),
          args=dict(self="GherkinLine", prefix=Str), returns=Bool,
          ensures=[clause("prefix", lambda self, prefix, result: result == startswith(self._trimmed_line_text, prefix),
                          serves=["C05", "C13"])])
 
 contract("gherkin.gherkin_line.GherkinLine.startswith_title_keyword",
+         gen=lambda bound, seeds: ((l, p) for l in _lines(bound, seeds, " x:") for p in ("", "x", "xx", "x:")),
          args=dict(self="GherkinLine", keyword=Str), returns=Bool,
          ensures=[clause("prefix", lambda self, keyword, result:
                          result == startswith(self._trimmed_line_text, keyword + ":"), serves=["C05"])])
 
 # split_table_cells: the yielded (cell, start column) pairs are exactly the transducer's output (README rules).
 contract("gherkin.gherkin_line.GherkinLine.split_table_cells",
+         gen=lambda bound, seeds: chain(((t,) for t in seeds if isinstance(t, str)), ((t,) for t in strings("|\\n x\U0001F600", bound + 2))),
          args=dict(row=Str),
          returns=ListOf(TupleOf(Str, Int)),
          generator=True,
@@ -72,6 +89,7 @@ contract("gherkin.gherkin_line.GherkinLine.split_table_cells",
              variant=lambda row, col: len(row) + 2 - col)})
 
 contract("gherkin.gherkin_line.GherkinLine.table_cells",
+         gen=lambda bound, seeds: ((l,) for l in _lines(bound + 1, seeds, "|\\n \t\u00a0x", prefix=" |")),
          args=dict(self="GherkinLine"),
          returns=ListOf("gherkin_line.Cell"),
          ensures=[clause("cells", lambda self, result: result == spec_cells(self._trimmed_line_text, self.indent),
@@ -80,3 +98,44 @@ contract("gherkin.gherkin_line.GherkinLine.table_cells",
              invariant=[clause("acc", lambda cells, _i, _seq, self: len(cells) == _i and forall(
                  _i, lambda j: cells[j] == cell_of(_seq[j][0], _seq[j][1], self.indent)), serves=["C12", "C04"])],
              types=dict(cells=MutList("gherkin_line.Cell")))})
+
+# tags: one item per '@' of the tag line; column = 1-based position of that '@' in the source line;
+# the first tag whose value contains whitespace makes the line an error located at that tag.
+contract("gherkin.gherkin_line.GherkinLine.tags",
+         bounded_only="the split/offset proof does not discharge within the solver budget yet (9 of 17 obligations do)",
+         gen=lambda bound, seeds: ((l,) for l in _lines(bound + 1, seeds, "@ \t#x\u00a0\U0001F600", prefix="  @")),
+         args=dict(self="GherkinLine"),
+         requires=[clause("at-sign", lambda self: startswith(self._trimmed_line_text, "@"))],
+         returns=ListOf("gherkin_line.Cell"),
+         ensures=[
+             clause("count", lambda self, result: len(result) == len(tag_items(self._trimmed_line_text)) - 1,
+                    serves=["C03", "C04"]),
+             clause("items", lambda self, result: forall(len(result), lambda k: result[k] == tag_cell(
+                 tag_items(self._trimmed_line_text), k + 1, self.indent)), serves=["C03", "C04"]),
+             clause("at", lambda self, result: forall(len(result), lambda k:
+                    char_at(self._line_text, result[k]["column"] - 1) == 64), serves=["C04"]),
+             clause("no-ws", lambda self, result: forall(len(result), lambda k: not contains_ws(result[k]["text"])),
+                    serves=["C14"]),
+         ],
+         raises=[raises("ParserException",
+                        when=lambda self: exists(len(tag_items(self._trimmed_line_text)) - 1, lambda k: contains_ws(
+                            "@" + strip(tag_items(self._trimmed_line_text)[k + 1]))),
+                        ensures=[
+                            clause("line", lambda self, exc: exc.location["line"] == self._line_number, serves=["C14", "C04"]),
+                            clause("has-column", lambda exc: "column" in exc.location, serves=["C14", "C04"]),
+                            clause("at", lambda self, exc: char_at(self._line_text, exc.location["column"] - 1) == 64,
+                                   serves=["C04", "C14"]),
+                            clause("message", lambda self, exc: str(exc) == error_message(
+                                self._line_number, exc.location["column"], "A tag may not contain whitespace"),
+                                serves=["C14"]),
+                        ], serves=["C14"])],
+         loops={0: loop(
+             invariant=[
+                 clause("column", lambda self, column, _i: column == self.indent + split_off(
+                     tag_items(self._trimmed_line_text), _i + 1), serves=["C04", "C14"]),
+                 clause("acc", lambda self, tags, _i: len(tags) == _i and forall(_i, lambda j: tags[j] == tag_cell(
+                     tag_items(self._trimmed_line_text), j + 1, self.indent)), serves=["C03", "C04"]),
+                 clause("clean", lambda self, _i: forall(_i, lambda j: not contains_ws(
+                     "@" + strip(tag_items(self._trimmed_line_text)[j + 1]))), serves=["C14"]),
+             ],
+             types=dict(tags=MutList("gherkin_line.Cell")))})
